@@ -1,4 +1,5 @@
 SPECIFICATION Spec
 CONSTANTS MaxOps = 5  Dev = {"ViewBuiltInCallerDict"}
 INVARIANT NoLeak
+INVARIANT KidIsOwn
 CHECK_DEADLOCK FALSE
